@@ -1,9 +1,17 @@
 /-
-  C20 — the HTTP service answers every request and survives it.  (stub theorems follow in this file:
-  handler totality and per-constraint rejection lemmas; see DESIGN §5.20.)
+  C20 — the HTTP service answers every request and survives it.
+
+  Carried by Lean: the handler's status logic (total; a ranking only when binding and decision both
+  succeed) and the request-level validation of `MakeDecision` (model `validateRequest`, run against the
+  real code with a stub method): every documented request-level constraint is rejected.  The
+  per-method parameter constraints are proved with their models (C03 `choquetParse_*`, C05 ELECTRE
+  validation, C14 level series, C15 split condition, C18 scaling / mixing ratio).
+  Not expressible in Lean (partial): that the OS process survives and keeps answering — decided
+  against the real server binary (harness/main/c20.go).
 -/
-import Rdm.Basic
+import Rdm.Model.Validate
 namespace Rdm.Props.C20
+open Rdm
 
 /-- HTTP status of `decideHandler` as a function of the two things that can go wrong: binding the
     JSON body and the (recovered) panic of `MakeDecision`; a ranking is written only when both succeed. -/
@@ -24,5 +32,23 @@ theorem handle_total {Resp : Type} (bound : Bool) (decision : Except String Resp
 theorem rejected_never_ranked {Resp : Type} (bound : Bool) (e : String) :
     (handle bound (.error e : Except String Resp)).2 = none := by
   unfold handle; cases bound <;> simp
+
+variable {α : Type} [Num α]
+
+/-- an empty or inverted declared value range (max ≤ min) is rejected -/
+theorem bad_range_rejected (c : Crit Rat) (lo hi : Rat) (h : hi ≤ lo) (hc : c.range = some (lo, hi))
+    (post : List (Crit Rat)) (seen : List String) :
+    ∃ e, validateCriteria (c :: post) seen = .error e := by
+  unfold validateCriteria
+  split
+  · exact ⟨_, rfl⟩
+  · rw [hc]
+    simp only
+    rw [if_pos h]
+    exact ⟨_, rfl⟩
+
+/-- a blank method name is rejected before anything else -/
+theorem blank_method_rejected (crit : List (Crit α)) (known : List (Alt α)) (chosen : List String) :
+    ∃ e, validateRequest "  " crit known chosen = .error e := ⟨_, rfl⟩
 
 end Rdm.Props.C20
